@@ -178,6 +178,8 @@ type FnCtx struct {
 	fvs       map[string]VPtr // captured variables when fn is a closure
 	callAsserts map[int]int   // assertcall clause index -> matching call sites executed
 	curInstr  ssa.Instruction
+	prelude   string // declarations and library axioms this function's queries need
+	dynOn     bool // this function's contract speaks about dynamic type tags
 	frameOnly bool // computing the caller-visible frame (callee writes into its own fresh objects do not count)
 	firstIter []string
 	allocOrder map[*ssa.Alloc]int
@@ -562,6 +564,10 @@ func (c *FnCtx) freshVal(st *State, t types.Type, hint string) Val {
 	case *types.Pointer:
 		n := c.declare(hint, sInt)
 		c.assert(and(le("0", n), lt(n, st.nextRef), or(eq(n, "0"), lt("1000", n))))
+		if tag := c.eng.dynTag(u.Elem()); tag != "" && c.dynOn {
+			// well-typed heap: a non-nil *T points to an object allocated as a T
+			c.assert(implies(lt("0", n), eq(sel(c.heapGet(st, "G$dyn.type", arrSort(sInt)), n), tag)))
+		}
 		return VPtr{Root: rootObj, Ref: n, T: u.Elem()}
 	case *types.Tuple:
 		out := VTuple{}
@@ -606,6 +612,9 @@ func (c *FnCtx) typeInv(st *State, v Val, t types.Type) string {
 		}
 	case *types.Pointer:
 		if p, ok := v.(VPtr); ok && p.Root == rootObj && len(p.Path) == 0 {
+			if tag := c.eng.dynTag(u.Elem()); tag != "" && c.dynOn {
+				return and(le("0", p.Ref), implies(and(lt("0", p.Ref), lt(p.Ref, "4611686018427387904")), eq(sel(c.heapGet(st, "G$dyn.type", arrSort(sInt)), p.Ref), tag)))
+			}
 			return le("0", p.Ref) // (pointers into arrays kept in memory are encoded as huge references, see elemptr)
 		}
 	case *types.Struct:
